@@ -783,4 +783,7 @@ func propC37(c *Check) {
 	ruleR37_2(c)
 	// same results as on disk: the mode-independent part of DropAll (id space restart ⇒ caches cleared)
 	ruleR29_4(c)
+	// in-memory mode has no value log: every value is stored inline, whatever meta it came with
+	// (entries loaded from a backup of an on-disk DB carry the pointer bit)
+	ruleR06_2(c)
 }
